@@ -8,6 +8,10 @@
 set -uo pipefail
 here="$(cd "$(dirname "$0")/.." && pwd)"
 prop="$1"; root="${2:-/repo}"
+# a build cache of this run's own for the scratch copies (see sweep.sh): several properties may be run
+# side by side, and none may remove a cache another one is using
+export GODICHECK_SWEEP_CACHE=$(mktemp -d /tmp/godicheck-sweep-cache.XXXXXX)
+trap 'rm -rf "$GODICHECK_SWEEP_CACHE"' EXIT
 "$here/bin/godicheck" -property "$prop" -tier thorough -root "$root" -verif "$here"
 st=$?
 ev="$here/evidence/$prop.json"
@@ -61,8 +65,6 @@ c["false_alarm_corpus"] = {"entries": len(fa), "silent": sum(1 for s in fa if s.
 c["cross_reference"] = {"go_vet_copylocks_lostcancel_atomic_lines": int(vet), "note": "generic analyzers, recorded only; they decide nothing"}
 json.dump(e, open(ev, "w"), indent=1); open(ev, "a").write("\n")
 PY
-# the sweeps' private build cache (see sweep.sh) is not kept
-rm -rf "${GODICHECK_SWEEP_CACHE:-/tmp/godicheck-sweep-cache}"
 n=$(echo "$sens" | python3 -c 'import json,sys; s=json.load(sys.stdin); print(str(sum(1 for x in s if x.get("detected")))+"/"+str(len(s)))')
 echo "sensitivity corpus for $prop: detected $n"
 echo "false-alarm corpus for $prop: $(echo "$fa" | python3 -c 'import json,sys; s=json.load(sys.stdin); print(str(sum(1 for x in s if x.get("silent")))+"/"+str(len(s))+" silent")')"
